@@ -302,13 +302,19 @@ func vContextProgram(n int, kinds ...int) {
 			order[a], order[b] = order[b], order[a]
 		}
 	}
+	// the front end of the logging calls: the logger itself, or its sugared form obtained at the call
+	sugared := !vNarrowNames && vrt.Choice("via", 2) == 1
 	for pos, j := range order {
 		d := loggers[j]
 		y := vrt.Int64(vName("site", j))
 		if vNonNeg {
 			vrt.Assume(y >= 0)
 		}
-		d.log.Info("m", Int64("site", y))
+		if sugared {
+			d.log.Sugar().Infow("m", "site", y)
+		} else {
+			d.log.Info("m", Int64("site", y))
+		}
 		if coreKind == 0 || coreKind >= 4 {
 			if n := len(rec.st.writes); n > 0 {
 				w := rec.st.writes[n-1]
@@ -389,7 +395,7 @@ func (s *vLineSink) Write(p []byte) (int, error) {
 }
 func (s *vLineSink) Sync() error { return nil }
 
-//verif: prop=C07 bounds="derivation programs of 2 steps (each: parent chosen among earlier loggers; op in {With 1 field, With 3 fields, WithLazy 1 field, WithLazy 2 fields, Named(empty | name | name beginning with a dot | name ending with a dot), WithOptions(Fields), Sugar.With.Desugar, Sugar.WithLazy.Desugar, Namespace+field, Namespace alone, an object whose marshaler opens its own namespace, With of a marshaler over state that changes after the derivation}), symbolic int64 values, over the storing/wrapping cores (observer, tee, sampler, hooked, increase-level); every logger logs once, forwards or backwards"
+//verif: prop=C07 bounds="derivation programs of 2 steps (each: parent chosen among earlier loggers; op in {With 1 field, With 3 fields, WithLazy 1 field, WithLazy 2 fields, Named(empty | name | name beginning with a dot | name ending with a dot), WithOptions(Fields), Sugar.With.Desugar, Sugar.WithLazy.Desugar, Namespace+field, Namespace alone, an object whose marshaler opens its own namespace, With of a marshaler over state that changes after the derivation}), symbolic int64 values, over the storing/wrapping cores (observer, tee, sampler, hooked, increase-level); every logger logs once, forwards or backwards, directly or through Sugar()"
 func VC07Program2() { vContextProgram(2, 1, 4, 5, 6, 7) }
 
 //verif: prop=C07 bounds="derivation programs of 2 steps from the 7-operation core menu over the encoding cores (JSON, console, sampler over JSON), output decoded"
